@@ -791,6 +791,22 @@ class Evaluator:
             if isinstance(v, Bits):
                 hi = pat["hi"] if pat["incl"] else pat["hi"] - 1
                 return mkin(v, pat["lo"], hi), binds
+        if k == "Leaf":
+            # tuple / struct pattern: the conjunction of its refutable sub-patterns (none for `()` or plain bindings)
+            self.bind(pat, v, binds)
+            c = Cond("true")
+            for s_ in pat.get("subs", []):
+                if _irrefutable(s_["p"]):
+                    continue
+                fv = None
+                if isinstance(v, Agg):
+                    fv = v.fields.get(s_["f"]) if s_["f"] in v.fields else v.fields.get(str(s_["idx"]))
+                elif isinstance(v, tuple) and v and v[0] not in ("array", "match", "cases", "closure") and s_["idx"] < len(v):
+                    fv = v[s_["idx"]]
+                if fv is None:
+                    fv = Sym("%s.%s" % (vkey(v), s_["f"] or s_["idx"]))
+                c = self.logic("and", c, self.pat_cond(s_["p"], fv, env)[0])
+            return c, binds
         if k == "Or":
             cs = [self.pat_cond(p, v, env)[0] for p in pat["pats"]]
             return self.logic("or", *cs), binds
@@ -1301,7 +1317,10 @@ class Evaluator:
                 self._collect(tb, n["else"], env_e, depth, follow, out, guard + (("not " + ckey(c)),), path)
             for kk in list(env):
                 if env_t.get(kk) is not env[kk] or env_e.get(kk) is not env[kk]:
-                    env[kk] = Sym("ite(%s,%s,%s)" % (ckey(c), vkey(env_t.get(kk)), vkey(env_e.get(kk))))
+                    if isinstance(c, Cond) and c.op in ("true", "false"):
+                        env[kk] = env_t.get(kk) if c.op == "true" else env_e.get(kk)
+                    else:
+                        env[kk] = Sym("ite(%s,%s,%s)" % (ckey(c), vkey(env_t.get(kk)), vkey(env_e.get(kk))))
             if n.get("else") is None and not followed and self._ends_in_return(tb, n["then"]):
                 return ("if-diverges", ckey(c))
             return
